@@ -40,9 +40,10 @@ def seed_grid():
     imgs = [imgspec(0), imgspec(1, type="netinst", bootable=True, implant_md5="0123456789abcdef0123456789abcdef"),
             imgspec(2, type="live", format="iso", subvariant="KDE", checksums=dict(CHK3)),
             imgspec(3, unified=True, additional_variants=["Client", "Server-optional"], size=2 ** 33 + 1),
-            imgspec(4, arch="src", type="dvd", disc_number=2, disc_count=3, volume_id=None)]
+            imgspec(4, arch="src", type="dvd", disc_number=2, disc_count=3, volume_id=None),
+            imgspec(5, subvariant="Sub0")]          # identical identity AND checksums to image 0, another path: both must survive
     cells = [["Server", "x86_64", 0], ["Server", "x86_64", 1], ["Server", "x86_64", 2], ["Server", "i386", 3],
-             ["Client", "x86_64", 3], ["Client", "i386", 4], ["Server", "x86_64", 4]]
+             ["Client", "x86_64", 3], ["Client", "i386", 4], ["Server", "x86_64", 4], ["Client", "x86_64", 5]]
     return {"header": "1.2", "compose": compose_section(), "images": imgs, "cells": cells}
 
 
@@ -149,7 +150,8 @@ def edits(spec, seed=0):
     out = []
     alph = [("type", list(pi.SUPPORTED_IMAGE_TYPES)), ("format", list(pi.SUPPORTED_IMAGE_FORMATS)),
             ("volume_id", [None, "Fedora 23 x86_64", "Völ \"q\""]), ("implant_md5", [None, "0123456789abcdef0123456789abcdef"]),
-            ("checksums", [dict(CHK1), dict(CHK3)]), ("size", [1, 2 ** 32, 2 ** 33 + 1]), ("mtime", [0, 1451606400, 2 ** 33]),
+            ("checksums", [dict(CHK1), dict(CHK3)]), ("size", [1, 2 ** 32, 2 ** 33 + 1, 1000.5]),
+            ("mtime", [0, 1451606400, 2 ** 33, 1556179200.75]),        # (floats: refused today; if ever accepted they must cycle)
             ("bootable", [False, True]), ("subvariant", ["", "KDE"]), ("arch", ["x86_64", "src", "aarch64"])]
     for i, s in enumerate(spec["images"]):
         for f, values in alph:
